@@ -8,6 +8,7 @@ import DropletsVerif.Driver.C02
 import DropletsVerif.Driver.C18
 import DropletsVerif.Driver.C19
 import DropletsVerif.Driver.C14
+import DropletsVerif.Driver.C08
 
 open DV.Drv
 
@@ -21,6 +22,7 @@ def dispatch (line : String) : String :=
   | "c18" :: args => handleC18 args
   | "c19" :: args => handleC19 args
   | "c14" :: args => handleC14 args
+  | "c08" :: args => handleC08 args
   | "c15" :: args => handleC15 args
   | _ => "bad-op"
 
